@@ -79,7 +79,36 @@ theorem period_of_powx (c : PolyMod T P n) (h : powx P n n (2 ^ n - 1) 1 = 1) (s
     iter T (2 ^ n - 1) s = s := by
   rw [c.iter_of_powx (Nat.sub_lt (Nat.two_pow_pos n) (by omega)) h, act_one]
 
+/-- C06 core: if `x^(2^k) mod P` is the polynomial packed in the macro's word list, the
+    `impl_jump!` loop equals `2^k` steps. -/
+theorem jumpLoop_eq_iter (c : PolyMod T P n) {w : Nat} (words : List (BitVec w)) {k : Nat}
+    (hk : k < n) (h : powx P n n (2 ^ k) 1 = polyOfWords words) (s : σ) :
+    jumpLoop T xor zero words s = iter T (2 ^ k) s := by
+  rw [jumpLoop_eq_act, ← h, c.powx_act (Nat.pow_lt_pow_right (by omega) hk)]
+
 end PolyMod
+
+/-! ## generic corollaries for a map `j` that equals `K` steps of `f` -/
+
+section corollaries
+variable {α : Type} {f j l : α → α} {K L : Nat}
+
+theorem comm_step_of_eq_iter (hj : ∀ s, j s = iter f K s) (s : α) : j (f s) = f (j s) := by
+  rw [hj, hj, ← iter_succ', iter_succ]
+
+theorem comm_of_eq_iter (hj : ∀ s, j s = iter f K s) (hl : ∀ s, l s = iter f L s) (s : α) :
+    j (l s) = l (j s) := by
+  rw [hj, hl, hl, hj, iter_comm]
+
+theorem iter_of_eq_iter (hj : ∀ s, j s = iter f K s) (k : Nat) (s : α) :
+    iter j k s = iter f (k * K) s := by
+  rw [iter_mul]; exact iter_congr hj k s
+
+theorem iter_after_of_eq_iter (hj : ∀ s, j s = iter f K s) (i : Nat) (s : α) :
+    iter f i (j s) = iter f (i + K) s := by
+  rw [hj, iter_add]
+
+end corollaries
 
 /-- Certificate that `x^(N/p) - 1` is a unit modulo `P`: the value `r = x^(N/p) mod P` and an
     inverse `inv` of `r + 1`. -/
